@@ -10,7 +10,7 @@
    any number of transactions / keys (duplicates allowed) / timestamps.  [reach sf ns s]: the same with
    distinct keys in every Lock (what txn.go passes).  held l = the first lacq keys of l (sorted by genLock). *)
 From Coq Require Import NArith List.
-From Verif Require Import Latch.Model Latch.ProofsOps Latch.ProofsBase Latch.ProofsInv Latch.ProofsSys Latch.ProofsThm.
+From Verif Require Import Latch.Model Latch.ProofsOps Latch.ProofsBase Latch.ProofsInv Latch.ProofsSys Latch.ProofsLive Latch.ProofsThm.
 Import ListNotations.
 
 (* Exclusive (no hypothesis on the key lists): a lock counts a key as acquired iff the key's node names it as
@@ -77,12 +77,27 @@ Theorem C17_channel : forall sf ns s, reach_any sf ns s ->
 Proof. exact closed_facts. Qed.
 Print Assumptions C17_channel.
 
-(* No deadlock (and release never panics), distinct keys, scheduler not closed: in a reachable state where no
-   step other than starting a transaction, Close() or a recycle is enabled, every transaction is either not
-   started or completely released (a full channel never blocks for ever: UnLock is enabled below 100 pending). *)
-Theorem C17_no_deadlock : forall sf ns s, reach sf ns s -> closed (gl s) = false -> quiescent sf ns s ->
-  forall i, pc s i = TNew \/ pc s i = TRel.
-Proof. exact no_deadlock. Qed.
+(* ---- liveness under the caller contract ----
+   Caller contract [client_ok] (Model.v, over traces of client actions CLock / CRet / CUnlock): per lock: Lock, its
+   return, then exactly one UnLock; a commit ts only on a non-stale lock and greater than the start ts; every lock
+   that returned has been handed back. In the automaton the order is enforced by [exec] (LUnlock needs pc = TDone);
+   what a client can still do wrong is to never take its LUnlock step (seed C17-5: no UnLock after a stale verdict).
+   A schedule of a client_ok population and of run() that keeps taking enabled steps is a run of [progress_label]
+   steps (LAcq, LUnlock, LPop, LRel, LWake, LTrig) that stops only in a [stuck] state. *)
+
+(* termination: every such run from a reachable state has at most [pot s] steps (pot: explicit measure, ProofsLive.v),
+   for any key lists, closed or not; so every schedule that keeps taking enabled steps reaches a stuck state *)
+Theorem C17_reaches_quiescence : forall sf ns tr s s', reach_any sf ns s -> Forall progress_label tr ->
+  run sf ns tr s = Some s' -> length tr + pot s' <= pot s /\ reach_any sf ns s'.
+Proof. exact bounded_runs. Qed.
+Print Assumptions C17_reaches_quiescence.
+
+(* no deadlock, no latch left (distinct keys per Lock, scheduler not closed): where such a schedule stops, every
+   transaction is released (or not started), no key has a holder and no waiting list has an entry; release never panics *)
+Theorem C17_no_deadlock : forall sf ns s, reach sf ns s -> closed (gl s) = false -> stuck sf ns s ->
+  (forall i, pc s i = TNew \/ pc s i = TRel) /\ (forall k, holderK sf (lat s) k = None) /\
+  (forall sl, waitS (lat s) sl = []).
+Proof. exact no_latch_held. Qed.
 Print Assumptions C17_no_deadlock.
 
 (* The composite acquire() of latch.go (used by Lock() and wakeup()) is the iteration of the atomic steps *)
@@ -92,6 +107,14 @@ Theorem C17_acquire_is_steps : forall sf ns s i L' r, reach_any sf ns s -> pc s 
                chan s' = chan s /\ sch s' = sch s /\ gl s' = gl s.
 Proof. exact acquire_refines. Qed.
 Print Assumptions C17_acquire_is_steps.
+
+(* The composite release() of latch.go (run()) is the iteration of the atomic steps; it never panics *)
+Theorem C17_release_is_steps : forall sf ns s i L' wl pan, reach_any sf ns s -> sch s = SRel i [] ->
+  release sf (lat s) i = (L', wl, pan) ->
+  pan = false /\ exists n s', run sf ns (repeat LRel (S n)) s = Some s' /\ lat s' = L' /\ sch s' = next_sch wl /\
+    pc s' i = TRel /\ chan s' = chan s /\ gl s' = gl s.
+Proof. exact release_refines. Qed.
+Print Assumptions C17_release_is_steps.
 
 (* ---- non-vacuity: concrete reachable runs (one slot) ---- *)
 Example C17_ex_reachable : exists s, run sf0 1 tr_finish init_state = Some s /\ reach sf0 1 s.
@@ -122,3 +145,23 @@ Example C17_ex_closed_strands_waiter :
   exists s, run sf0 1 tr_closed init_state = Some s /\ reach sf0 1 s /\ closed (gl s) = true /\
             pc s 0 = TDrop /\ pc s 1 = TWait /\ holderK sf0 (lat s) 2%N = Some 0 /\ quiescent sf0 1 s.
 Proof. exact closed_strands_waiter. Qed.
+
+(* the caller contract on traces: seed C17-5 (Commit returns on a stale verdict without UnLock) is not client_ok;
+   the repaired trace is; a commit ts on a stale lock, or not above the start ts, is not *)
+Example C17_ex_client_ok :
+  (client_okb [CLock 0 5%N; CRet 0 true] = false) /\
+  (client_okb [CLock 0 5%N; CRet 0 true; CUnlock 0 0%N] = true) /\
+  (client_okb [CLock 0 5%N; CLock 1 6%N; CRet 1 false; CUnlock 1 9%N; CRet 0 false; CUnlock 0 0%N] = true) /\
+  (client_okb [CLock 0 5%N; CRet 0 true; CUnlock 0 9%N] = false) /\
+  (client_okb [CLock 0 5%N; CRet 0 false; CUnlock 0 5%N] = false) /\
+  (client_okb [CLock 0 5%N; CRet 0 false; CUnlock 0 7%N; CUnlock 0 7%N] = false).
+Proof. vm_compute. repeat split. Qed.
+(* in the system: T1 was handed key 2 stale (tr_handoff ... LWake: Lock() returned stale); if its client never takes
+   LUnlock 1 (seed C17-5) that is the ONLY enabled step left besides starting new work, key 2 keeps holder 1 and T2,
+   which needs key 2, is blocked behind it *)
+Example C17_ex_seed5_client_blocks :
+  option_map (fun s => (pc s 1, lstale (locks (lat s) 1), holderK sf0 (lat s) 2%N, pc s 2, swaiting (slots (lat s) 0%N),
+                        sch s, chan s))
+             (run sf0 1 (tr_handoff ++ [LRel; LWake; LTrig; LAcq 2]) init_state)
+  = Some (TDone, true, Some 1, TWait, [2], SIdle, []).
+Proof. vm_compute. reflexivity. Qed.
